@@ -17,6 +17,10 @@ CONSTANTS MaxNodes,    \* values (primitive or container) besides the root
           LookNames,   \* set of names asked for by lookups
           Ops,         \* enabled call kinds
           Roots,       \* subset of {"O","A"}
+          HistK,       \* the last HistK calls are part of the explored state (0 = plain product graph): every path
+                       \* suffix of that length is continued, which exposes hidden implementation state that a
+                       \* correct Layer I merges (e.g. a stale toggle left by one particular call order)
+          NavScope,    \* properties in whose scope a plain navigation disagreement of this model lies
           EmitOn
 
 PI == INSTANCE ParserImpl
@@ -25,11 +29,12 @@ C  == INSTANCE Cursor
 E  == INSTANCE Emit
 CI == INSTANCE ClassImpl
 
-VARIABLES phase, buf, bstk, nodes, tree, P, c, hex, path, bad
-vars == <<phase, buf, bstk, nodes, tree, P, c, hex, path, bad>>
+VARIABLES phase, buf, bstk, nodes, tree, P, c, hex, path, bad, hist
+vars == <<phase, buf, bstk, nodes, tree, P, c, hex, path, bad, hist>>
 \* hidden: tree/hex are functions of buf; path/bad are history; frames are
 \* identified by their (pos,on) pairs
-View == <<phase, buf, bstk, nodes, P, c.mode, [i \in 1..Len(c.stk) |-> <<c.stk[i].pos, c.stk[i].on>>]>>
+View == <<phase, buf, bstk, nodes, P, c.mode, [i \in 1..Len(c.stk) |-> <<c.stk[i].pos, c.stk[i].on>>], hist>>
+Push(h, tok) == IF HistK = 0 THEN <<>> ELSE LET a == Append(h, tok) IN IF Len(a) > HistK THEN SubSeq(a, Len(a) - HistK + 1, Len(a)) ELSE a
 
 RootKind == IF buf[1] = 64 THEN "O" ELSE "A"
 Base == IF RootKind = "A" THEN 1 ELSE 0
@@ -37,7 +42,7 @@ Base == IF RootKind = "A" THEN 1 ELSE 0
 Init == /\ phase = "build"
         /\ \E r \in Roots : buf = <<IF r = "O" THEN 64 ELSE 66>> /\ bstk = <<[kind |-> r, last |-> 0]>>
         /\ nodes = 0 /\ tree = C!NoKid.node /\ P = PI!BlankP(ParserMaxD) /\ c = C!Fresh
-        /\ hex = "" /\ path = "" /\ bad = ""
+        /\ hex = "" /\ path = "" /\ bad = "" /\ hist = <<>>
 
 \* ---------- document builder: all well-formed token strings -------------
 BTop == bstk[Len(bstk)]
@@ -56,7 +61,7 @@ Build ==
         /\ nodes' = nodes + 1
      \/ /\ buf' = buf \o <<IF BTop.kind = "O" THEN 65 ELSE 67>>
         /\ bstk' = SubSeq(bstk, 1, Len(bstk) - 1) /\ nodes' = nodes
-  /\ UNCHANGED <<phase, tree, P, c, hex, path, bad>>
+  /\ UNCHANGED <<phase, tree, P, c, hex, path, bad, hist>>
 
 InitPath(h) == E!Pre("I", RootKind \o h, "1") \o " "
 Start ==
@@ -66,10 +71,10 @@ Start ==
      /\ phase' = "nav" /\ tree' = pr.node /\ P' = i0.P /\ c' = C!Fresh
      /\ hex' = F!HexStr(buf) /\ path' = InitPath(F!HexStr(buf))
      /\ bad' = IF pr.ok /\ i0.ok THEN "" ELSE "builder produced a document Layer A or init rejects"
-  /\ UNCHANGED <<buf, bstk, nodes>>
+  /\ UNCHANGED <<buf, bstk, nodes, hist>>
 
 \* ---------- one navigation call ------------------------------------------
-Line(pfx, last) == "BEH Z " \o ToString(ParserMaxD) \o " | " \o pfx \o "| " \o last
+Line(pfx, last) == "BEH Z " \o ToString(ParserMaxD) \o " " \o NavScope \o " | " \o pfx \o "| " \o last
 
 \* Layer I vs Layer A for a child the getters must describe
 HitOK(PP, hit, inObj) ==
@@ -110,6 +115,7 @@ Step(op, arg, r, a, kind) ==
   /\ path' = path \o E!Pre(op, arg, E!Bit(a.ret)) \o " "
   /\ bad' = IF ok THEN bad ELSE "Layer I deviates from Layer A at: " \o path \o last
   /\ (EmitOn => PrintT(Line(path, last)))
+  /\ hist' = Push(hist, op \o arg)
   /\ UNCHANGED <<phase, buf, bstk, nodes, tree, hex>>
 
 KindName(t) == IF t = "object" THEN "O" ELSE "A"
@@ -125,12 +131,16 @@ Nav ==
           /\ IF k = "object" THEN Step("io", "", PI!GoIntoObject(P, buf), C!Enter(c, tree, k), "enter")
              ELSE Step("ia", "", PI!GoIntoArray(P, buf), C!Enter(c, tree, k), "enter")
      \/ /\ "next" \in Ops /\ C!CanNext(c)
+        \* "full": a full traversal never skips a container it has been handed
+        /\ ("full" \in Ops => ~(C!Top(c).on /\ C!IsCont(C!OnKid(c).node.t)))
         /\ Step("n", "", PI!NextP(P, buf), C!Next(c), "hit")
      \/ /\ "nextens" \in Ops /\ C!CanNext(c)
         /\ \E ty \in EnsTypes(NextType) :
              Step("ne", ToString(E!TypeCode(ty)), PI!NextEnsure(P, buf, ty), C!NextEnsure(c, ty), "hit")
      \/ \E k \in {"object", "array"} :
           /\ "leave" \in Ops /\ C!CanLeave(c, k)
+          \* "full": ... and leaves a container only when everything in it has been visited
+          /\ ("full" \in Ops => (C!Top(c).pos = Len(C!Top(c).node.kids) /\ ~C!Top(c).on))
           /\ IF k = "object" THEN Step("lo", "", PI!LeaveObject(P, buf), C!Leave(c), "leave")
              ELSE Step("la", "", PI!LeaveArray(P, buf), C!Leave(c), "leave")
      \/ /\ "field" \in Ops /\ C!CanLookup(c)
@@ -150,7 +160,7 @@ Nav ==
 \* C12: init / reset / verify from EVERY reachable state give the fresh parser
 Fresh0 == PI!InitP(RootKind, buf, ParserMaxD).P
 Again(op, PP, ret) ==
-  /\ P' = PP /\ c' = C!Fresh /\ path' = InitPath(hex)
+  /\ P' = PP /\ c' = C!Fresh /\ path' = InitPath(hex) /\ hist' = <<>>
   /\ bad' = IF ret /\ PP = Fresh0 THEN bad ELSE "not fresh after " \o path \o op
   /\ (EmitOn => PrintT(Line(path, E!Full(op, IF op = "I" THEN RootKind \o hex ELSE "", "1", "0", "0", "x", "x", "P", "0"))))
   /\ UNCHANGED <<phase, buf, bstk, nodes, tree, hex>>
@@ -166,7 +176,7 @@ Transcribe ==
   /\ phase = "nav" /\ bad = "" /\ "transcribe" \in Ops /\ c.mode = "fresh"
   /\ c' = [mode |-> "left", stk |-> <<>>] /\ path' = path \o "xc=1 "
   /\ (EmitOn => PrintT(Line(path, E!Full("xc", "", "1", "0", "x", "x", "x", "x", ToString(Len(buf))))))
-  /\ UNCHANGED <<phase, buf, bstk, nodes, tree, hex, P, bad>>
+  /\ UNCHANGED <<phase, buf, bstk, nodes, tree, hex, P, bad, hist>>
 
 Next == Build \/ Start \/ Nav \/ Reuse \/ Transcribe
 Spec == Init /\ [][Next]_vars
@@ -207,6 +217,7 @@ LookLong == {<<97>>, <<98>>, Rep(109, 127), Rep(109, 128), Rep(109, 129), <<122>
 LookAB   == {<<>>, <<97>>, <<97, 97>>, <<98>>, <<99>>, <<100>>}
 LookRich == {<<>>, <<0>>, <<97>>, <<97, 0>>, <<97, 97>>, <<97, 98>>, <<98>>, <<127>>, <<128>>, <<255>>, <<255, 0>>}
 OpsWalk  == {"enter", "next", "leave"}
+OpsFull  == {"enter", "next", "leave", "full"}
 OpsNavE  == {"enter", "next", "leave", "raw", "nextens"}
 OpsNav   == {"enter", "next", "leave", "raw"}
 OpsAll   == {"enter", "next", "leave", "raw", "field", "nextens", "fieldens"}
